@@ -155,6 +155,9 @@ class Check(FormulaCheck):
             ok = r['error'] is None and (r['result'] is v or (type(r['result']) is type(v) and canon(r['result']) == canon(v)))
             tag = ':name-with-cell-shaped-prefix' if kind == 'cell-prefix' else (':underscore-then-digits' if kind == 'underscore-digits' else '')
             self.expect('C09/variable-does-not-evaluate-to-its-value' + tag, ok, name=name, value=v, record=r)
+            if name not in ('TRUE', 'FALSE', 'NULL'):
+                ro = self.hx_parser().parse(name)
+                self.expect('C09/unknown-variable-is-not-#NAME?:registered-on-another-parser', ro == {'result': None, 'error': '#NAME?'}, name=name, record=ro)
             rec.nt(('var', name, repr(v)))
             rec.cov('name_shapes', kind)
             rec.cov('value_types', type(v).__name__)
@@ -169,6 +172,10 @@ class Check(FormulaCheck):
             ok = r['error'] is None and (r['result'] is v2 or (type(r['result']) is type(v2) and canon(r['result']) == canon(v2)))
             self.expect('C09/rebound-variable-keeps-old-value' + tag, ok, name=name, old=v, new=v2, record=r)
             rec.sample({'name': name, 'value': repr(v)}, k=6)
+
+    def hx_parser(self):
+        import hotxlfp
+        return hotxlfp.Parser()
 
     # ------------------------------------------------------------------ custom functions
     def c_functions(self, spec, rec):
@@ -244,6 +251,17 @@ class Check(FormulaCheck):
                 self.expect(key + ':return-value-is-not-the-call-value', okv, formula=f2, returned=ret, record=r)
             elif calls and nsites == 2:
                 self.expect(key + ':return-value-is-not-the-call-value', r['error'] is None and r['result'] == 2 * ret, formula=f2, returned=ret, record=r)
+            # the same names on ANOTHER parser of this process: custom ones are unknown there, shadowed built-ins are the built-ins
+            import hotxlfp
+            other = hotxlfp.Parser()
+            before = len(log)
+            documented = set(documented_names())
+            for onm, _ in names:
+                ro = other.parse('%s(1,2)' % onm)
+                if onm in builtins or onm in documented:
+                    self.expect(key + ':custom-function-of-another-parser-called', len(log) == before, name=onm, record=ro)
+                else:
+                    self.expect('C09/unknown-function-is-not-#NAME?:registered-on-another-parser', ro == {'result': None, 'error': '#NAME?'}, name=onm, record=ro)
             rec.nt((f2, repr(ret)))
             rec.cov('function_name_kinds', 'shadow' if shadow else ('cellish' if CELLISH.match(nm) else ('dotted' if '.' in nm else 'plain')))
             rec.sample({'formula': f2, 'registered': [n for n, _ in names]}, k=6)
